@@ -450,7 +450,8 @@ public:
     auto e = std::lower_bound(
         edge_begin(N1), edge_end(N1), N2,
         [=](edge_iterator e, GraphNode N) { return getEdgeDst(e) < N; });
-    return (getEdgeDst(e) == N2) ? e : edge_end(N1);
+    // lower_bound returns edge_end(N1) when N2 is larger than every neighbour
+    return (e != edge_end(N1) && getEdgeDst(e) == N2) ? e : edge_end(N1);
   }
 
   runtime::iterable<NoDerefIterator<edge_iterator>>
